@@ -324,7 +324,21 @@ class C18(Lab):
         if want != 0 and not (Fraction(10) ** -300 < abs(want) < Fraction(10) ** 300):
             return {"nontrivial": False, "classes": ["chain-out-of-range"]}
         close(got, want, a + b, f"convert(level {a} -> level {b}, {x!r}) in a user chain with factors {fs}", "C18/convert/user-chain", case)
-        return {"nontrivial": max(a, b) >= 2 and a != b, "classes": ["chain", f"depth{len(fs)}"]}
+        classes = ["chain", f"depth{len(fs)}"]
+        L = max(a, b)
+        if L >= 2:
+            # the same unit re-expressed directly against the root after it has already been used (its public
+            # base_unit / conversion functions are re-assigned): a conversion follows what the unit says now
+            p = 1.0
+            for f in fs[:L]:
+                p *= f
+            if p != 0 and math.isfinite(p) and abs(p) > 1e-300:
+                u = chain[L]
+                u.base_unit, u.unit_to_base, u.base_to_unit = root, (lambda v, p=p: v * p), (lambda v, p=p: v / p)
+                got2 = self.conv(chain[a], chain[b], x, case)
+                close(got2, want, a + b + L, f"convert(level {a} -> level {b}, {x!r}) after level {L} was re-based onto the root, factors {fs}", "C18/convert/user-chain-rebased", case)
+                classes.append("chain-rebased")
+        return {"nontrivial": max(a, b) >= 2 and a != b, "classes": classes}
 
     def run_sonar(self, case):
         un = UNIT_NAMES[case["u"]]
